@@ -12,6 +12,7 @@
    auto_on          : auto_determine_solver on a stored matrix = Model/AutoSolver.v fed with these predicates. *)
 From Coq Require Import ZArith QArith List Bool.
 From Pymoto Require Import Base.CQMat Model.AutoSolver Model.MatrixChecks Proofs.AutoSolverP Proofs.MatrixChecksP.
+From Pymoto Require Import Model.Grid Model.MGInterp Proofs.MGInterpP.
 Import ListNotations.
 
 (* the DIA fast path `len(A.offsets) == 1 and A.offsets[0] == 0` accepts exactly the offsets array [0] ... *)
@@ -108,3 +109,49 @@ Example C05_auto_on_nonvacuous :
   auto_on (SDiaMatrix [0%Z]) false D false false false None None None None = KDiagonal /\
   auto_on (SDiaMatrix [0%Z; 1%Z]) false D false false false None None None None = KSparseLU.
 Proof. vm_compute. repeat split. Qed.
+
+(* ------------------------------------------------------------------ geometric multigrid: the prolongation R
+   interp_triples fine ndof : the (row, col, 8 * value) triples GeometricMultigrid.setup_interpolation assembles for the
+   domain `fine` (sizes divisible by 2, nelx, nely, nelz independent: even_grid) with ndof dofs per node; the coarse
+   domain is sub_grid fine.  (Exact correspondence with the implementation's R on rectangular 2-D / 3-D domains on
+   every run.) *)
+
+(* every triple lies inside the (ndof * fine nodes) x (ndof * coarse nodes) matrix, with a weight in 1/8 .. 1 *)
+Theorem C05_mg_interp_in_range :
+  forall (fine : grid) (ndof : Z), even_grid fine -> (1 <= ndof)%Z ->
+  forall r col v : Z, In (r, col, v) (interp_triples fine ndof) ->
+  (0 <= r < nfine fine ndof)%Z /\ (0 <= col < ncoarse fine ndof)%Z /\ (1 <= v <= 8)%Z.
+Proof. exact interp_in_range. Qed.
+Print Assumptions C05_mg_interp_in_range.
+
+(* the row of the fine node (2a, 2b, 2c) holds the coarse node (a, b, c) with weight 1 and nothing else *)
+Theorem C05_mg_interp_pinned_rows :
+  forall (fine : grid) (ndof : Z), even_grid fine -> (1 <= ndof)%Z ->
+  forall a b c d : Z,
+  (0 <= a <= nelx (sub_grid fine))%Z -> (0 <= b <= nely (sub_grid fine))%Z -> (0 <= c <= nelz (sub_grid fine))%Z ->
+  (0 <= d < ndof)%Z ->
+  let r := (nodenumber fine (2 * a) (2 * b) (2 * c) * ndof + d)%Z in
+  let q := (nodenumber (sub_grid fine) a b c * ndof + d)%Z in
+  In (r, q, 8%Z) (interp_triples fine ndof) /\
+  forall col v, In (r, col, v) (interp_triples fine ndof) -> col = q /\ v = 8%Z.
+Proof. exact interp_pinned_rows. Qed.
+Print Assumptions C05_mg_interp_pinned_rows.
+
+(* hence R has full column rank: R x = 0 only for x = 0 (no empty or dependent column; the Galerkin coarse matrix
+   R^T A R of a positive definite A is positive definite, so the coarse solve is well-defined) *)
+Theorem C05_mg_interp_injective :
+  forall (fine : grid) (ndof : Z), even_grid fine -> (1 <= ndof)%Z ->
+  forall x : Z -> Z,
+  (forall r, (0 <= r < nfine fine ndof)%Z -> apply_row (interp_triples fine ndof) x r = 0%Z) ->
+  forall q, (0 <= q < ncoarse fine ndof)%Z -> x q = 0%Z.
+Proof. exact interp_injective. Qed.
+Print Assumptions C05_mg_interp_injective.
+
+(* non-vacuity: a 4 x 2 domain (nelx <> nely), one dof per node: 15 fine nodes, 6 coarse nodes, 28 entries *)
+Example C05_mg_interp_nonvacuous :
+  let g := {| nelx := 4; nely := 2; nelz := 0 |} in
+  even_grid g /\ nfine g 1 = 15%Z /\ ncoarse g 1 = 6%Z /\ length (interp_triples g 1) = 28%nat /\
+  In (14, 5, 8)%Z (interp_triples g 1) /\ In (7, 1, 4)%Z (interp_triples g 1).
+Proof.
+  split; [exists 2%Z, 1%Z, 0%Z; cbn; repeat split; try reflexivity; discriminate|]. vm_compute. intuition.
+Qed.
